@@ -1,5 +1,6 @@
 """C10 — a Bar always lasts exactly its time signature, or its construction fails."""
 import math
+import os
 
 from hypothesis import strategies as st
 
@@ -23,6 +24,7 @@ RULE = ("Hypothesis: (sequence, numerator, denominator in {1,2,3,4,6,8,12,16,24,
 RULE = RULE + " Rounds e-f: zero-length grace notes, a read of the absolute view / duration before copy, arbitrary ill-formed relative lists ('any sequence')."
 RULE = RULE + " Round h: an INTERNAL end marker added through add_absolute_message after the relative view was read."
 RULE = RULE + " Round i: stray time attributes on hand-written relative note messages."
+RULE = RULE + " Round j: settings reloaded at run time with another ppqn."
 ASSUMPTIONS = ["a duplicate identical signature may be accepted or rejected (normalise may merge it)"]
 TIERS = {"quick": dict(shards=8, examples=1200), "thorough": dict(fuzz_runs=20000, fuzz_shards=4, shards=16, examples=15000)}
 
@@ -80,6 +82,8 @@ def _case(draw):
     case = {"seq": spec, "num": num, "den": den, "key": draw(st.one_of(st.none(), st.sampled_from(gens.KEYS)))}
     # what happens between construction and copy: nothing, or a read of the bar's absolute view / duration
     case["consult"] = draw(st.sampled_from([None, None, "abs", "duration"]))
+    if draw(st.integers(0, 9)) == 0:
+        case["reload_ppqn"] = draw(st.sampled_from([48, 96, 12]))
     if draw(st.integers(0, 5)) == 0:
         # the way detokenise marks the end of a sequence: an INTERNAL marker added through add_absolute_message (here after the
         # relative view was read once), at a tick around the capacity
@@ -111,6 +115,33 @@ def strategy(params, shard, nshards):
 
 
 def check(case):
+    """(wrapper) in a tenth of the cases a settings file with another resolution is loaded at run time before the bar is built, the
+    way an application re-reads its configuration; the default file is loaded again afterwards in any case"""
+    if not case.get("reload_ppqn"):
+        return _check(case)
+    import json
+    import tempfile
+    from pathlib import Path
+    import scoda.settings.settings as settings
+    from pbt.sut import REPO
+    root = os.path.dirname(os.path.dirname(os.path.dirname(os.path.abspath(__file__))))
+    cfg = json.load(open(os.path.join(REPO, "scoda", "config", "default_settings.json")))
+    cfg["general_settings"]["ppqn"] = case["reload_ppqn"]
+    os.makedirs(os.path.join(root, ".cache"), exist_ok=True)
+    fd, path = tempfile.mkstemp(suffix=".json", dir=os.path.join(root, ".cache"))
+    with os.fdopen(fd, "w") as f:
+        json.dump(cfg, f)
+    try:
+        settings.load_from_file(Path(path))
+        out = _check(case)
+        out.label("settings-reloaded-at-run-time")
+        return out
+    finally:
+        settings.load_from_file()
+        os.unlink(path)
+
+
+def _check(case):
     out = Outcome()
     num, den = case["num"], case["den"]
     cap = 96 * num // den
